@@ -32,7 +32,7 @@ func init() {
 		Quick: 6000, Thorough: 600000,
 		Run:        runC07,
 		Rule:       "one run = one generated (type, value) whose encoding E decodes; evaluations = individual faulted decodes: every prefix of E (exhaustive), 6 byte substitutions at every offset (all offsets up to 512 bytes, sampled beyond), every length prefix at every nesting level inflated to 13 values in minimal and padded form, every varint re-encoded over-long, wire-type swaps of every declared field, a foreign field of each wire type and of 3 undeclared numbers inserted at every field boundary of every nesting level, decodes into a different type, random strings. non-trivial = E has at least 2 bytes; distinct = distinct hash of (type, E)",
-		FaultKinds: []string{"tear(prefix)", "tear(prefix, rest of the message behind len)", "rot(byte-substitution)", "length-inflation", "overlong-varint", "overflow-varint(10th byte > 1)", "wire-type-swap", "foreign-field:varint", "foreign-field:fixed64", "foreign-field:varlen", "foreign-field:fixed32", "foreign-field-nested-level", "cross-type-decode", "random-bytes", "scaling-probe(n vs 8n elements)", "deep-nesting-probe", "cut-inside-length-prefix", "cut-inside-embedded-message"},
+		FaultKinds: []string{"tear(prefix)", "tear(prefix, rest of the message behind len)", "rot(byte-substitution)", "length-inflation", "overlong-varint", "overflow-varint(10th byte > 1)", "wire-type-swap", "foreign-field:varint", "foreign-field:fixed64", "foreign-field:varlen", "foreign-field:fixed32", "foreign-field-nested-level", "cross-type-decode", "random-bytes", "scaling-probe(n vs 8n elements)", "short-message-after-a-long-one", "destination-decoded-into-again", "deep-nesting-probe", "cut-inside-length-prefix", "cut-inside-embedded-message"},
 		ProbeNames: []string{"messages", "roundtrip-precondition-failed(skipped)", "scan-checked", "scan-vs-skip-checked", "alloc-precise-samples", "levels>1", "torn-input-accepted-as-value", "torn-input-rejected", "rot-accepted", "rot-rejected", "inflated-rejected", "E>=128B", "E>=1KiB"},
 		Real:       []string{"proto.Unmarshal, proto.Parse, proto.Scan, RawValue methods compiled from /repo's working tree with sync and sync/atomic redirected to the shim (deterministic simulated sync.Pool, pristine library state before every run)"},
 		Model:      []string{"storage/transport medium: fault operators over the encoded bytes", "reference protobuf wire parser and schema walker (verifsim/ref) used to locate lengths, varints and field boundaries and to build foreign fields"},
@@ -76,6 +76,8 @@ type c07Ctx struct {
 	calls   int
 	// beyond, when set, is what lies behind the end of the next input within its capacity
 	beyond []byte
+	// prevX is a destination of the caller's that is decoded into again and again
+	prevX reflect.Value
 }
 
 var c07Arena []byte
@@ -120,6 +122,18 @@ func (c *c07Ctx) decode(in []byte, op string) (reflect.Value, error, bool) {
 		after = ms.TotalAlloc
 	} else {
 		after = heapAllocs()
+	}
+	if pan == "" && c.calls%5 == 0 {
+		// (outside the measured window: repeated fields are appended to, so this
+		// destination grows) a destination the caller keeps for message after message
+		// receives this one too, merged into what it holds, its byte slices cut to
+		// length zero first: no panic, and the input stays as it is (checked below)
+		if !c.prevX.IsValid() || c.calls%250 == 0 {
+			c.prevX = reflect.New(c.ty.rt)
+		}
+		emptyBytes(c.prevX.Elem(), 0)
+		_, pan = unmarshalNoPanic(buf, c.prevX.Interface())
+		r.Fault("destination-decoded-into-again")
 	}
 	fail := func(class, key, format string, a ...any) {
 		r.Fail(class, key, format, a...)
@@ -222,6 +236,30 @@ func sameScan(a, b []byte) bool {
 		}
 	}
 	return true
+}
+
+// emptyBytes cuts the []byte fields reachable from v to length zero, as a caller that
+// recycles a message does (m.Data = m.Data[:0]).
+func emptyBytes(v reflect.Value, depth int) {
+	if depth > 6 || !v.IsValid() {
+		return
+	}
+	switch v.Kind() {
+	case reflect.Ptr:
+		if !v.IsNil() {
+			emptyBytes(v.Elem(), depth+1)
+		}
+	case reflect.Struct:
+		for i := 0; i < v.NumField(); i++ {
+			if v.Type().Field(i).PkgPath == "" {
+				emptyBytes(v.Field(i), depth+1)
+			}
+		}
+	case reflect.Slice:
+		if v.Type().Elem().Kind() == reflect.Uint8 && !v.IsNil() && v.CanSet() {
+			v.Set(v.Slice(0, 0))
+		}
+	}
 }
 
 // parseChain calls proto.Parse on b, then on the remainder it returned, until
@@ -827,6 +865,31 @@ func c07Scaling(r *core.Run) bool {
 	}
 	if e1 != nil || e8 != nil {
 		core.Harness("C07 scaling probe input rejected: %v %v", e1, e8)
+	}
+	// history: after the long message, a short one of the same type whose repeated
+	// fields hold one element each (many small collections) costs what it costs on
+	// its own, not what the long one did
+	{
+		var rec []byte
+		switch p.name[:5] {
+		case "PNode": // Kids[i] = {Kids: [{V: 1}]}, 100 times
+			for i := 0; i < 100; i++ {
+				rec = append(rec, 0x1a, 0x04, 0x1a, 0x02, 0x08, 0x01)
+			}
+		default:
+			rec = p.rec(1)
+		}
+		aS, eS, pS := measure(rec)
+		r.Evaluations++
+		r.Fault("short-message-after-a-long-one")
+		if pS != "" {
+			r.Fail("panic", "unmarshal-panic:"+panicSite(pS), "proto.Unmarshal panicked on a short message after a long one of the same type (%s): %s", p.name, pS)
+			return false
+		}
+		if eS == nil && aS > 1<<20+1024*uint64(len(rec)) {
+			r.Fail("allocation", "alloc-unbounded:short-after-long", "proto.Unmarshal of a %d-byte message of %s allocated %d bytes right after a %d-element message of the same type was decoded (bound 1 MiB + 1024 x len)", len(rec), p.name, aS, 8*n)
+			return false
+		}
 	}
 	if a8 > 16*a1+1<<20 {
 		r.Fail("allocation", "alloc-superlinear", "proto.Unmarshal of %s: %d elements (%d bytes) allocate %d bytes, %d elements (%d bytes) allocate %d bytes: 8 times the input costs %.1f times the memory (bound 16x + 1 MiB)", p.name, n, len(small), a1, 8*n, len(big), a8, float64(a8)/float64(a1+1))
